@@ -47,7 +47,7 @@ class C09(Check):
                 ["pixee:python/url-sandbox", "pixee:python/use-defusedxml"],
                 ["pixee:python/use-defusedxml", "pixee:python/flask-enable-csrf-protection", "pixee:python/url-sandbox"]]
         for si, seq in enumerate(seqs):
-            for mn in ("req-plain", "pyproject-has-security", "setupcfg-multiline", "setuppy-multi"):
+            for mn in ("req-plain", "pyproject-has-security", "setupcfg-multiline", "setuppy-multi", "setupcfg-inline-single"):
                 files = []
                 for ci, cid in enumerate(seq):
                     rr = G.pick_snippet(random.Random(f"c09-seq-{si}-{ci}"), cid)
@@ -57,6 +57,15 @@ class C09(Check):
                     files.append({"path": "requirements.txt", "manifest": names["req-comments"]["idx"]})  # a second store
                 fixed.append({"kind": "dep-sequence", "world_spec": {"files": files}, "include": seq, "plugins": False, "path_include": None,
                               "extra_findings": {}, "sched": {"seed": si, "policy": "fifo", "line_p": 0.0}, "workers": None, "enum_seed": None})
+        # listed known finding (inline setup.cfg list is not re-read by the repository's own parser): shown on every run
+        files = []
+        for ci, cid in enumerate(seqs[0][:2]):
+            rr = G.pick_snippet(random.Random(f"c09-inline-{ci}"), cid)
+            files.append({"path": f"pkg/m{ci}.py", "snippets": [rr["idx"]], "layout": {}})
+        for mn in ("setupcfg-inline-single", "setupcfg-inline"):
+            fixed.append({"kind": "dep-sequence-inline-cfg", "world_spec": {"files": files + [{"path": "setup.cfg", "manifest": names[mn]["idx"]}]},
+                          "include": seqs[0][:2], "plugins": False, "path_include": None, "extra_findings": {},
+                          "sched": {"seed": 0, "policy": "fifo", "line_p": 0.0}, "workers": None, "enum_seed": None})
         if tier != "thorough":
             return fixed
         # the whole default set on a world holding one snippet file per codemod
@@ -122,20 +131,33 @@ class C09(Check):
                           "detail": {"batch": [batch["status"], batch["exception"]], "chain": st_chain}})
             return v
         final_batch = W.apply_changes(outcomes["orig"], batch["changed"])
+        mnames = {f["path"]: W.manifests()[f["manifest"]]["name"] for f in exp["world_spec"]["files"] if "manifest" in f}
+        manifest_only = None
         if final_batch != outcomes["chain_final"]:
             diff = sorted(f for f in set(final_batch) | set(outcomes["chain_final"]) if final_batch.get(f) != outcomes["chain_final"].get(f))
             culprits = self._culprits(exp, batch, chain)
-            v.append({"clause": "final-tree", "key": f"C09:tree-differs:{culprits}", "detail": {"files": diff[:5], "include": exp["include"]}})
+            if all(f in mnames for f in diff):
+                # a difference confined to dependency manifests is keyed by the manifest shape (the C14 input class)
+                manifest_only = "+".join(sorted(mnames[f] for f in diff))
+                v.append({"clause": "final-tree", "key": f"C09:manifest-differs:{manifest_only}",
+                          "detail": {"files": diff[:5], "include": exp["include"], "codemods": culprits}})
+            else:
+                v.append({"clause": "final-tree", "key": f"C09:tree-differs:{culprits}", "detail": {"files": diff[:5], "include": exp["include"]}})
         rb = results_by_codemod(batch["report"])
         for i, cid in enumerate(exp["include"]):
             a = (rb.get(cid) or [None])[0]
             c = (results_by_codemod(chain[i]["report"]).get(cid) or [None])[0]
             if a != c:
                 fields = sorted(k for k in set(a or {}) | set(c or {}) if (a or {}).get(k) != (c or {}).get(k))
+                pa = [x.get("path") for x in (a or {}).get("changeset", [])]
+                pc = [x.get("path") for x in (c or {}).get("changeset", [])]
+                ca = [x for x in (a or {}).get("changeset", []) if x.get("path") not in mnames]
+                cc = [x for x in (c or {}).get("changeset", []) if x.get("path") not in mnames]
+                if manifest_only and ca == cc and set(fields) <= {"changeset", "description"}:
+                    break  # the same manifest difference seen through the report (already reported above)
                 v.append({"clause": "per-codemod-result", "key": f"C09:result-differs:{cid}:{','.join(fields)}",
                           "detail": {"codemod": cid, "position": i, "fields": fields, "include": exp["include"],
-                                     "batch_paths": [x.get("path") for x in (a or {}).get("changeset", [])],
-                                     "chain_paths": [x.get("path") for x in (c or {}).get("changeset", [])]}})
+                                     "batch_paths": pa, "chain_paths": pc}})
                 break
         return v
 
